@@ -9,8 +9,9 @@ pub struct Prop {
 }
 
 pub mod c05;
+pub mod c11;
 
-pub static ALL: &[Prop] = &[c05::PROP];
+pub static ALL: &[Prop] = &[c05::PROP, c11::PROP];
 
 /// Internal sub-commands (child processes of a check).
 pub fn internal(_cmd: &str, _args: &[String]) -> Option<i32> {
